@@ -39,10 +39,14 @@ def check(pid, tier, replay=None):
         mode, chunk, nw = "link", 1, 16
     else:
         if tier == "quick":
-            cases = [dict(id="C18-a", n=10, subs=1, finalAt=0), dict(id="C18-b", n=100, subs=1, finalAt=4), dict(id="C18-c", n=100, subs=3, finalAt=0)]
+            cases = [dict(id="C18-a", n=10, subs=1, finalAt=0), dict(id="C18-b", n=100, subs=1, finalAt=4), dict(id="C18-c", n=100, subs=3, finalAt=0),
+                     # peers that misbehave at connection level: capabilities exchange completing 2.5 s late on every third
+                     # rating connection; the account peer closing every second connection right after the exchange
+                     dict(id="C18-g", n=4, subs=2, finalAt=0, peerFault="slowcea"), dict(id="C18-h", n=12, subs=6, finalAt=0, peerFault="dropaftercea")]
         else:
             cases = [dict(id="C18-a", n=10, subs=1, finalAt=0), dict(id="C18-b", n=100, subs=1, finalAt=4), dict(id="C18-c", n=1000, subs=3, finalAt=5),
-                     dict(id="C18-d", n=1000, subs=1, finalAt=0), dict(id="C18-e", n=300, subs=8, finalAt=3), dict(id="C18-f", n=6, subs=6, finalAt=0, noAcct=True)]
+                     dict(id="C18-d", n=1000, subs=1, finalAt=0), dict(id="C18-e", n=300, subs=8, finalAt=3), dict(id="C18-f", n=6, subs=6, finalAt=0, noAcct=True),
+                     dict(id="C18-g", n=12, subs=3, finalAt=0, peerFault="slowcea"), dict(id="C18-h", n=60, subs=6, finalAt=0, peerFault="dropaftercea")]
         mode, chunk, nw = "leak", 1, 6
     if replay:
         with open(replay) as f:
